@@ -79,6 +79,7 @@ pub fn c07_lopdf_updates(ctx: &Ctx, out: &mut RunOut) -> Result<(), Violation> {
                 }
             }
         }
+        length_targets.extend(h.written.layout.container_length_objs.iter().map(|n| (*n, 0)));
         (h.written.bytes.clone(), expect_for_lopdf(&h.written.expect[last]), h.written.structural_ids[last].clone())
     } else {
         let (m, _) = gen::gen_doc(ctx);
